@@ -480,6 +480,11 @@ class Lowerer:
                 return self.mk('call', node, args, name=callee.a['name'], id=callee.a['id'],
                                hep=callee.a['hep'], probe=callee.a.get('probe'),
                                ftype=callee.a.get('ftype'))
+            if callee is not None and callee.op == 'mem':
+                # static member function called through an object: obj.f(args)
+                return self.mk('mcall', node, [callee.k[0]] + args, name=callee.a.get('name'),
+                               id=callee.a.get('id'), hep=(callee.a.get('id') in self.p.hep_ids),
+                               arrow=callee.a.get('arrow'), objtype=callee.k[0].ty)
             # call through an object / pointer (functor members are CXXOperatorCallExpr)
             return self.mk('call', node, [callee] + args, name='<indirect>', id=None, hep=False,
                            probe=None, indirect=True)
